@@ -270,6 +270,8 @@ def _builtin(fa, b, e, args, kw, env):
             return VINT
         return VNUM
     if b in STR_FUNCS:
+        if b in ('str', 'repr', 'format', 'ascii', 'unicode') and a0 is not None:
+            fa.emit('render', e, {'arg': a0, 'how': b})
         return VSTR
     if b in BOOL_FUNCS:
         if b in ('any', 'all') and a0 is not None:
@@ -712,6 +714,10 @@ def _subst(v, actual, depth=0):
 # ------------------------------------------------------------------- methods
 def _method_call(fa, e, f, recv, args, kw, env):
     meth = f.attr
+    if meth == 'format' and isinstance(f.value, ast.Constant):
+        for av in list(args) + list(kw.values()):
+            if av is not None:
+                fa.emit('render', e, {'arg': av, 'how': 'str.format'})
     a0 = args[0] if args else None
     recv_clean = frozenset(a for a in recv if a != UNDEF)
     if meth in MUTATOR_METHODS:
